@@ -76,8 +76,11 @@ check('C05',
       'frequency of the band lies between the band-edge delays for either sign of DM, every sample retained by the crop '
       '[ceil(-min(0,dtop,dbot)), N-ceil(max(0,dtop,dbot))) has its source inside the input for every frequency of the band, the front '
       'crop is tight, and the crop is a slice whose start time advances by the front crop (C01); over R (Coquelicot) the chirp has unit '
-      'modulus, its phase has -delay(f) as derivative (group delay) and chirp(DM)*chirp(-DM) = 1. PARTIAL: the filtering ifft(fft z * H) '
-      'and the cropped two-pass round trip rest on scipy.fft = DFT and are checked numerically (independent complex128 filter with the '
+      'modulus, its phase has -delay(f) as derivative (group delay) and chirp(DM)*chirp(-DM) = 1; and the filtering itself, over C for every '
+      'length n >= 1, input and bin-frequency assignment (IDFT(DFT x . chirp), the verified DFT of Lib/Dft.v): bin k of the result is bin k '
+      'of the input times the transfer function, a tone is multiplied by the transfer function at its own frequency, the map is linear, '
+      'two passes compose to the summed DM and DM then -DM (uncropped) returns every sample (C05_spectrum/tone/linear/compose/'
+      'roundtrip_uncropped). PARTIAL: scipy.fft = that DFT and the CROPPED two-pass round trip are checked numerically (independent complex128 filter with the '
       'phase computed exactly and reduced mod 1; round trip within the sampled filter\'s leakage).',
       'Trusted: Coq kernel + stdlib real-number axioms (sig_forall_dec, sig_not_dec, functional_extensionality_dep, classic) for the R '
       'part; T2; scipy.fft/libm/astropy validated numerically; chirp tolerance 1.2e-7 + 8 pi 2^-50 |phase|.',
